@@ -81,7 +81,25 @@ pub struct Case {
     pub ops: Vec<Op>,
 }
 
+/// ids with bit 62 set are *derived*: the leaf hash is the internal-node hash of the two leaf
+/// hashes whose (31-bit) ids are packed into it — a caller-chosen leaf hash that coincides with
+/// the hash of an internal node elsewhere in the tree
+const DERIVED: u64 = 1 << 62;
+
+pub fn derived_hash_id(a: u64, b: u64) -> Option<u64> {
+    if a < (1 << 31) && b < (1 << 31) {
+        Some(DERIVED | (a << 31) | b)
+    } else {
+        None
+    }
+}
+
 pub fn hash_of(id: u64) -> Hash {
+    if id & DERIVED != 0 && id >> 63 == 0 {
+        let a = (id >> 31) & 0x7fff_ffff;
+        let b = id & 0x7fff_ffff;
+        return ref_internal_hash(&hash_of(a), &hash_of(b));
+    }
     let bytes: [u8; 32] = match id {
         0 => [0u8; 32],
         1 => [0xffu8; 32],
@@ -489,7 +507,9 @@ fn check_views(blob: &MerkleBlob, model: &Model, after: &str) -> Result<(), Fail
         if leaf_hi.get(h) != Some(i) {
             return Err(mism("leaf_hashes", format!("leaf hash of key {k} maps to {:?}, the leaf is at {i}", leaf_hi.get(h))));
         }
-        if all_hi.get(h) != Some(i) || !all_h.contains(h) {
+        // (a leaf hash may coincide with an internal node's hash, so the full view may point at
+        // either node; that it points at a node carrying the hash is checked below)
+        if !all_hi.contains_key(h) || !all_h.contains(h) {
             return Err(mism("all_hashes", format!("leaf hash of key {k} missing from get_hashes/get_hashes_indexes")));
         }
         // (c) per-key lookups
@@ -1046,6 +1066,22 @@ impl Gen<'_> {
         (1 << 20) + self.fresh_hash
     }
     fn any_hash(&mut self) -> u64 {
+        // one new leaf hash in 25 equals the internal-node hash of two live leaves' hashes (in
+        // either order): if those two are siblings, a leaf and an internal node carry one hash
+        if self.model.hashes.len() >= 2 && self.rng.chance(1, 25) {
+            let n = self.model.hashes.len();
+            let newest_hash = self.model.newest.and_then(|k| self.model.kv.get(&k)).map(|(_, h)| *h);
+            let a = match newest_hash {
+                Some(h) if self.rng.chance(1, 2) => h,
+                _ => *self.model.hashes.keys().nth(self.rng.usize_below(n)).unwrap(),
+            };
+            let b = *self.model.hashes.keys().nth(self.rng.usize_below(n)).unwrap();
+            if a != b {
+                if let Some(id) = derived_hash_id(a, b) {
+                    return id;
+                }
+            }
+        }
         if self.rng.chance(7, 10) {
             self.new_hash()
         } else {
